@@ -77,6 +77,27 @@ def check_case(ctx, case):
     b = impl.canon_record(out << k, rid=3)
     if a.seq != b.seq or denot(a.feats, n) != denot(b.feats, n) or readings(a.feats, n) != readings(b.feats, n):
         ctx.fail("rc(r >> {0}) differs from rc(r) << {0}".format(k), case)
+    # the arguments in the order SeqRecord.reverse_complement declares them (a drop-in replacement is called positionally
+    # too): id, name, description, features, annotations, letter_annotations, dbxrefs
+    if n >= 1 and ctx.evaluations % 3 == 0:
+        rp = impl.mk_record(CRec(3, wd, feats, [5]), track=list(range(n)))
+        rp.dbxrefs = ["x:1"]
+        pos = rp.reverse_complement(True, True, True, False, True, False, True)
+        kw = rp.reverse_complement(id=True, name=True, description=True, features=False, annotations=True,
+                                   letter_annotations=False, dbxrefs=True)
+        def seen(o):
+            return (o.id, o.name, o.description, len(o.features), sorted(o.annotations), sorted(o.letter_annotations), list(o.dbxrefs))
+        if seen(pos) != seen(kw) or len(pos.features) != 0 or pos.dbxrefs != ["x:1"] or pos.letter_annotations:
+            ctx.fail("reverse_complement called positionally (id, name, description, features, annotations, "
+                     "letter_annotations, dbxrefs) keeps {} where the keyword call keeps {}".format(seen(pos), seen(kw)), case)
+    # a circular RNA: the reverse complement is an RNA too (what SeqRecord does for molecule_type RNA)
+    if n >= 1 and ctx.evaluations % 5 == 0:
+        rna = "".join({"T": "U", "t": "u"}.get(ch, ch) for ch in wd)
+        rr = impl.CircularRecord(impl.Seq(rna), id="rna", annotations={"molecule_type": "RNA", "topology": "circular"})
+        want = str(impl.SeqRecord(impl.Seq(rna), id="rna", annotations={"molecule_type": "RNA"}).reverse_complement().seq)
+        if str(rr.reverse_complement().seq) != want:
+            ctx.fail("reverse complement of the circular RNA {!r} is {!r} instead of {!r}".format(
+                rna, str(rr.reverse_complement().seq), want), case)
     # what is carried over is chosen per kind, as in Biopython: features and per-letter values independently
     if n >= 1:
         track = [ctx.rng.randrange(50) for _ in range(n)]
